@@ -61,11 +61,19 @@ def sameFrameCore (a b : F) : Bool :=
   a.sigs.length == b.sigs.length &&
   (List.zip a.sigs b.sigs).all fun (s, t) => s.name == t.name && s.body == t.body && s.receivers == t.receivers
 
-/-- every attribute with an effective value in the source has the same effective value on the copy -/
+/-- a value the target's definition of the attribute can hold: an ENUM definition lists it -/
+def expressible (tgtDefs : List D) (a v : String) : Bool :=
+  match tgtDefs.find? (·.name == a) with
+  | some d => d.kind != "ENUM" || d.values.contains v
+  | none => true
+
+/-- every attribute with an effective value in the source has the same effective value on the copy, and the target's definition
+of the attribute can hold that value (an ENUM definition lists it; asked only for attributes the source defines - a value without a
+definition in the source brings no definition along) -/
 def effPreserved (srcAttrs : A) (srcDefs : List D) (cpAttrs : A) (tgtDefs : List D) : Bool :=
   (names srcDefs ++ srcAttrs.map (·.1)).all fun a =>
     match eff srcAttrs srcDefs a with
-    | some v => eff cpAttrs tgtDefs a == some v
+    | some v => eff cpAttrs tgtDefs a == some v && (!(names srcDefs).contains a || expressible tgtDefs a v)
     | none => true
 
 /-- an object already in the target keeps the effective value of every attribute the target already defined,
